@@ -110,6 +110,25 @@ class GridPart:
         self.shards_thorough = shards_thorough
 
 
+class FuzzPart:
+    """Coverage-guided fuzzing campaign (atheris/libFuzzer) with the property's oracle inside the target.
+    Runs `python -m <module> <PROP> <outdir> <runs> <seed> <corpus>` in a child process per shard."""
+
+    kind = "fuzz"
+
+    def __init__(self, name, module, runs_quick, runs_thorough, env="default", tiers=("thorough",), oracle=None,
+                 shards_quick=None, shards_thorough=None):
+        self.name = name
+        self.module = module
+        self.runs_quick = runs_quick
+        self.runs_thorough = runs_thorough
+        self.env = env
+        self.tiers = tiers
+        self.oracle = oracle            # used for --replay of a saved violation
+        self.shards_quick = shards_quick
+        self.shards_thorough = shards_thorough
+
+
 class MachinePart:
     """A Hypothesis RuleBasedStateMachine over a call history.
 
